@@ -35,7 +35,7 @@ PROPS = {
     "C03": {
         "lean_modules": ["RosedVerif.Props.C03"],
         "theorems": "auto",
-        "groups": ["A-rel", "A-wrap", "A-justify"],
+        "groups": ["A-rel", "A-wrap", "A-justify", "A-chars"],
         "oracle": True,
         "tie": "relational run on the real code: the same operation on a stable text and on its cluster-for-cluster substitution (precomposed/decomposed, emoji ZWJ, flags, jamo), both also run on the model",
     },
